@@ -144,6 +144,7 @@ class Substitutor(SchemaVisitor[GenericSchema]):
                     pass
                 else:
                     return schema.__class__(schema.props.update(elements=substituted))
+            raise SubstitutionError(f"Can't substitute {value!r} at any position")
 
         # head
         if (len(elements) >= 2) and is_ellipsis(elements[-1]):
